@@ -33,7 +33,18 @@ TruthClauses(r) ==
           THEN {"C08_AttemptsWrong"} ELSE {})
   \cup (IF \E i \in DOMAIN r.nodes : r.nodes[i].executions > 0 /\ ~r.nodes[i].logExists THEN {"C08_LogPathMissing"} ELSE {})
   \cup (IF \E i \in DOMAIN r.nodes : ~r.nodes[i].startNotAfterFinish THEN {"C08_StartAfterFinish"} ELSE {})
-Clauses(r) == IF r.kind = "kill" THEN KillClauses(r) ELSE IF r.kind = "truth" THEN TruthClauses(r) ELSE SecondClauses(r)
+\* kind "stop" (C05 on real processes): the real `stop` command against a real run whose step is a shell process that
+\* obeys SIGTERM / ignores it / wants SIGINT (signalOnStop) / repeats
+StopClauses(r) ==
+  (IF r.infra # "" THEN {"INFRA"} ELSE
+   (IF ~r.withinBound THEN {"C05_RunDoesNotEndWithinBound"} ELSE {})
+   \cup (IF r.ended /\ r.status # "canceled" THEN {"C05_StoppedRunNotCanceled"} ELSE {})
+   \cup (IF r.ended /\ (r.oncancel # 1 \/ r.onexit # 1 \/ r.onsuccess # 0) THEN {"C05_CancelHandlersNotRun"} ELSE {})
+   \cup (IF r.s2ran > 0 THEN {"C05_StepStartedAfterStop"} ELSE {})
+   \cup (IF r.variant = "sigint" /\ r.gotint # 1 THEN {"C05_SignalOnStopNotUsed"} ELSE {})
+   \cup (IF r.variant = "repeat" /\ (r.iterdone # r.started \/ r.started > 2) THEN {"C05_RepeatStepDisturbedOrRepeated"} ELSE {}))
+Clauses(r) == IF r.kind = "kill" THEN KillClauses(r) ELSE IF r.kind = "truth" THEN TruthClauses(r)
+              ELSE IF r.kind = "stop" THEN StopClauses(r) ELSE SecondClauses(r)
 Init == l = 1 /\ bad = 0
 Next == /\ l <= Len(Trace) /\ l' = l + 1
         /\ LET c == Clauses(R) IN IF c = {} THEN UNCHANGED bad
